@@ -42,8 +42,10 @@ Fresh(k, f, n) ==
     /\ started' = [i \in DOMAIN f |-> 0]
     /\ done' = [i \in DOMAIN f |-> 0]
     /\ stopped' = {}
-    /\ shared' = [x \in Keys(f) |-> "T"]
-    /\ cache' = [g \in Guns |-> [x \in Keys(f) |-> "none"]]
+    \* the template store is not observable in a trace (only its effect on what is received):
+    \* kept empty, SendAct leaves it alone
+    /\ shared' = [x \in {} |-> "T"]
+    /\ cache' = [g \in Guns |-> [x \in {} |-> "none"]]
     /\ nx' = 0 /\ recvlog' = {}
     /\ nsample' = [i \in DOMAIN f |-> [ok |-> 0, fail |-> 0]]
 
